@@ -212,11 +212,139 @@ def stop_during_start(which):
     return out
 
 
+def thread_start_fails():
+    """the operating system refuses the emitter's thread (RuntimeError: can't start new thread) AFTER the emitter's
+    on_thread_start() has started its helper thread (real inotify emitter): start() fails; stop() + join() must still
+    end every thread the library started"""
+    from watchdog.observers.inotify import InotifyEmitter
+    out = []
+    base = tempfile.mkdtemp(prefix="c06t")
+    real_start = threading.Thread.start
+    fired = []
+
+    def start(self, *a, **k):
+        if isinstance(self, InotifyEmitter) and not fired:
+            fired.append(1)
+            raise RuntimeError("can't start new thread")
+        return real_start(self, *a, **k)
+    obs = InotifyObserver(timeout=0.05)
+    obs.schedule(FileSystemEventHandler(), base, recursive=True)
+    threading.Thread.start = start
+    try:
+        try:
+            obs.start()
+            out.append("start() did not raise although the emitter's thread could not be started")
+        except RuntimeError:
+            pass
+        finally:
+            threading.Thread.start = real_start
+
+        def go():
+            obs.stop()
+            try:
+                obs.join(3)
+            except RuntimeError:
+                pass   # the observer's own thread was never started
+        with_deadline(go, 8, "stop(); join() after a failed start()", out)
+        deadline = time.time() + 3
+        while lib_threads() and time.time() < deadline:
+            time.sleep(0.05)
+        left = lib_threads()
+        if left:
+            out.append(f"start() failed at the emitter's Thread.start(); after stop()+join() these library threads still run (nothing can reach them any more): {sorted(type(t).__name__ for t in left)}")
+            for t in left:
+                try:
+                    t.stop()
+                except Exception:
+                    pass
+    finally:
+        threading.Thread.start = real_start
+        shutil.rmtree(base, ignore_errors=True)
+    return out
+
+
+def unschedule_vs_stop():
+    """one application thread is inside unschedule(w1) - preempted right where the emitter is taken out of the registry -
+    while another calls stop(): both calls must return without an error and every emitter thread must be gone afterwards"""
+    out, errs = [], []
+    parked, release = threading.Event(), threading.Event()
+    first = []
+
+    def tracer(frame, event, arg):
+        # preemption point: entry of the registry's emitter-removal helper, on the unscheduling thread only
+        if event == "call" and frame.f_code.co_name == "_remove_emitter" and not first:
+            first.append(1)
+            parked.set()
+            release.wait(5)
+        return None
+
+    class Em(EventEmitter):
+        def queue_events(self, timeout):
+            # slow to notice the stop flag: whoever joins this emitter stays in its loop for a while
+            time.sleep(0.25)
+    obs = BaseObserver(Em, timeout=0.05)
+    w1 = obs.schedule(FileSystemEventHandler(), "/c06-w1")
+    for i in range(2, 5):
+        obs.schedule(FileSystemEventHandler(), f"/c06-w{i}")
+    ems = list(obs.emitters)
+    obs.start()
+
+    def t1():
+        sys.settrace(tracer)
+        try:
+            obs.unschedule(w1)
+        except Exception as e:  # noqa: BLE001
+            errs.append(f"unschedule() raised {type(e).__name__}: {e}")
+        finally:
+            sys.settrace(None)
+
+    def t2():
+        try:
+            obs.stop()
+        except Exception as e:  # noqa: BLE001
+            errs.append(f"stop() raised {type(e).__name__}: {e}")
+    a = threading.Thread(target=t1, daemon=True)
+    a.start()
+    if not parked.wait(3):
+        release.set()
+        return []   # the removal helper is not entered by unschedule(): nothing to interleave here
+    b = threading.Thread(target=t2, daemon=True)
+    b.start()
+    time.sleep(0.35)     # stop() is now waiting for the registry lock - or, without it, walking the emitter set
+    release.set()
+    a.join(8)
+    b.join(8)
+    if a.is_alive() or b.is_alive():
+        out.append("unschedule() and a concurrent stop() did not both return within 8 s")
+    out += errs
+    try:
+        obs.join(3)
+    except RuntimeError:
+        pass
+    time.sleep(0.4)
+    alive = [e for e in ems if e.is_alive()] + ([obs] if obs.is_alive() else [])
+    if alive:
+        out.append(f"after unschedule() || stop() and join(): {len(alive)} library thread(s) still alive")
+        for e in alive:
+            e.stop()
+        try:
+            obs.event_queue.put_nowait(BaseObserver.stop_event)
+        except Exception:
+            pass
+    return out
+
+
 def main():
     if REPLAY is not None:
         c = REPLAY
         if c["kind"] == "failed-start":
             pr = failed_start_then_stop()
+            replay_result(bool(pr), pr[:2])
+        if c["kind"] == "thread-start-fails":
+            pr = thread_start_fails()
+            replay_result(bool(pr), pr[:2])
+        if c["kind"] == "unschedule-vs-stop":
+            pr = unschedule_vs_stop()
             replay_result(bool(pr), pr[:2])
         if c["kind"] == "start-race":
             pr = stop_during_start(c["which"])
@@ -255,6 +383,14 @@ def main():
         pr = stop_during_start(which)
         if pr:
             bat.fail("C06.stop-during-start", pr[0], {"kind": "start-race", "which": which}, "BaseObserver._clear_emitters")
+    bat.case("thread-start-fails")
+    pr = thread_start_fails()
+    if pr:
+        bat.fail("C06.failed-thread-start", pr[0], {"kind": "thread-start-fails"}, "BaseObserver.start")
+    bat.case("unschedule-vs-stop")
+    pr = unschedule_vs_stop()
+    if pr:
+        bat.fail("C06.unschedule-vs-stop", pr[0], {"kind": "unschedule-vs-stop"}, "BaseObserver.unschedule")
     bat.case("flood")
     pr = flood()
     if pr:
